@@ -47,4 +47,25 @@ MUTATIONS = [
 	M('c05-list-path-order', ['C05'], 'src/gambit/metric.py', '\t\t\tout[i] = _cmetric.jaccarddist(query, ref)', '\t\t\tout[i] = _cmetric.jaccarddist(ref, ref) if i == 11 else _cmetric.jaccarddist(query, ref)', 'list path wrong for the 12th reference only'),
 	M('c05-race-shared-begin-end', ['C05'], MC, ' firstprivate(__pyx_v_begin) lastprivate(__pyx_v_begin) firstprivate(__pyx_v_end) lastprivate(__pyx_v_end)', '', 'begin/end shared between OpenMP threads (data race)', count='any'),
 	M('c05-out-oob', ['C05'], MC, '*((__pyx_t_6gambit_7_cython_5types_SCORE_T *) ( /* dim=0 */ (__pyx_v_out.data + __pyx_t_4 * __pyx_v_out.strides[0]) )) = __pyx_t_7;', '*((__pyx_t_6gambit_7_cython_5types_SCORE_T *) ( /* dim=0 */ (__pyx_v_out.data + (__pyx_t_4 + (__pyx_t_4 == 16)) * __pyx_v_out.strides[0]) )) = __pyx_t_7;', 'cell 16 written to cell 17 (out of bounds when n == 17)', count='any'),
+	# ---- C20 ----------------------------------------------------------------------------------------
+	M('c20-neg-inplace', ['C20'], 'src/gambit/util/indexing.py', '\t\t\t\tif index is input_index:\n\t\t\t\t\tindex = index.copy()\n', '', 'negative indices converted in the caller\'s array'),
+	M('c20-mask-len', ['C20'], 'src/gambit/util/indexing.py', '\t\t\tif len(index) != len(self):\n', '\t\t\tif len(index) > len(self):\n', 'short boolean masks accepted'),
+	M('c20-eq-ignores-kmerspec', ['C20'], 'src/gambit/sigs/base.py', 'return self.kmerspec == other.kmerspec and sigarray_eq(self, other)', 'return sigarray_eq(self, other)', '__eq__ ignores k-mer parameters'),
+	M('c20-check-index-len', ['C20'], 'src/gambit/util/indexing.py', 'if not 0 <= i2 < len(self):', 'if not 0 <= i2 <= len(self):', 'index == len passes the explicit check but the underlying storage still raises IndexError: observationally equivalent', expect='silent'),
+	M('c20-siglist-sub-dtype', ['C20'], 'src/gambit/sigs/base.py', 'return SignatureList([self._list[i] for i in indices], self.kmerspec, self.dtype)', 'return SignatureList([self._list[i] for i in indices], self.kmerspec)', 'empty sub-list loses the integer type'),
+	M('c20-insert-off', ['C20'], 'src/gambit/sigs/base.py', 'self._list.insert(i, sig)', 'self._list.insert(i + 1 if i > 2 else i, sig)', 'insert misplaces beyond index 2'),
+	M('c20-slice-neg-step', ['C20'], 'src/gambit/sigs/base.py', 'if step != 1 or stop <= start:', 'if step not in (1, -1) or stop <= start:', 'step -1 slices with stop > start take the contiguous fast path'),
+	M('c20-eq-len', ['C20'], 'src/gambit/sigs/base.py', 'return len(a1) == len(a2) and all(map(np.array_equal, a1, a2))', 'return all(map(np.array_equal, a1, a2))', 'equality ignores a length difference (prefix match)'),
+	# ---- C12 ----------------------------------------------------------------------------------------
+	M('c12-values-cast-u4', ['C12'], 'src/gambit/sigs/hdf5.py', "group.create_dataset('values', data=signatures.values, **values_kw)", "group.create_dataset('values', data=signatures.values.astype('u4') if signatures.values.dtype.itemsize == 8 else signatures.values, **values_kw)", '64-bit values stored as 32-bit on the array path'),
+	M('c12-ids-latin1', ['C12'], 'src/gambit/sigs/hdf5.py', 'self.ids = ids_data.asstr()[:]', "self.ids = ids_data.asstr('latin-1')[:]", 'string ids decoded as latin-1'),
+	M('c12-none-as-empty', ['C12'], 'src/gambit/sigs/hdf5.py', 'return h5.Empty(dtype) if value is None else value', "return '' if value is None else value", 'None metadata written as empty string'),
+	M('c12-extra-dropped', ['C12'], 'src/gambit/sigs/hdf5.py', "group.attrs['extra'] = json.dumps(meta.extra)", "group.attrs['extra'] = json.dumps(meta.extra if len(json.dumps(meta.extra)) < 40 else {})", 'large extra metadata dropped'),
+	dict(id='c12-no-marker-check', props=['C12'], desc='format marker never checked', expect='caught', edits=[
+		dict(file='src/gambit/sigs/hdf5.py', old="\tif FMT_VERSION_ATTR not in h5file.attrs:\n\t\traise exc\n", new=''),
+		dict(file='src/gambit/sigs/hdf5.py', old="\t\tif FMT_VERSION_ATTR not in group.attrs:\n\t\t\traise SignaturesFileError('HDF5 group does not contain a signature set', None, 'hdf5')\n", new=''),
+		dict(file='src/gambit/sigs/hdf5.py', old="self.format_version = group.attrs[FMT_VERSION_ATTR]", new="self.format_version = group.attrs.get(FMT_VERSION_ATTR, 1)"),
+		dict(file='src/gambit/sigs/hdf5.py', old="self.kmerspec = KmerSpec(group.attrs['kmerspec_k'], group.attrs['kmerspec_prefix'])", new="self.kmerspec = KmerSpec(group.attrs.get('kmerspec_k', 11), group.attrs.get('kmerspec_prefix', 'ATGAC'))")]),
+	M('c12-list-path-last-chunk', ['C12'], 'src/gambit/sigs/hdf5.py', '\t\t\tfor i in range(n):\n\t\t\t\tvalues[bounds[i]:bounds[i + 1]] = signatures[i]', '\t\t\tfor i in range(n if n < 25 else n - 1):\n\t\t\t\tvalues[bounds[i]:bounds[i + 1]] = signatures[i]', 'list write path skips the last signature of large collections'),
+	M('c12-int-ids-as-str', ['C12'], 'src/gambit/sigs/hdf5.py', "\t\telif ids.dtype.kind in 'ui':\n\t\t\tids_dtype = ids.dtype", "\t\telif ids.dtype.kind in 'ui':\n\t\t\tids = ids.astype(str).astype(object)\n\t\t\tids_dtype = h5.string_dtype()", 'integer ids stored as strings'),
 ]
